@@ -45,6 +45,31 @@ def mk_snapshot():
     return EventSnapshot(TracePointConfig('tp', 'f.py', 1, {}, [], []), 1, Resource.create(), [], {})
 
 
+class YieldingLock:
+    """A lock after whose release another thread's whole call can be scheduled (run inline: between the release and
+    the releasing thread's next instruction any other thread may run for as long as it likes)."""
+
+    def __init__(self):
+        self._lock = threading.Lock()
+        self.after_release = []
+
+    def acquire(self, *a, **k):
+        return self._lock.acquire(*a, **k)
+
+    def release(self):
+        self._lock.release()
+        if self.after_release:
+            self.after_release.pop(0)()
+
+    def __enter__(self):
+        self._lock.acquire()
+        return self
+
+    def __exit__(self, *exc):
+        self.release()
+        return False
+
+
 class C09(Prop):
     id = 'C09'
     level = 'exploration'
@@ -67,7 +92,8 @@ class C09(Prop):
         outcome = st.sampled_from(['ok', 'ok', 'convert_fail', 'send_fail', 'convert_none'])
         op = st.one_of(st.tuples(st.just('push'), outcome), st.tuples(st.just('push'), outcome),
                        st.tuples(st.just('submit'), st.sampled_from(['ok', 'raise', 'raise_base'])),
-                       st.tuples(st.just('run'), st.integers(0, 5)))
+                       st.tuples(st.just('run'), st.integers(0, 5)),
+                       st.tuples(st.just('overtaken'), outcome, outcome))
         sim = fd({
             'mode': st.just('sim'),
             'ops': st.lists(op, min_size=1, max_size=12).map(lambda l: [list(o) for o in l]),
@@ -89,6 +115,9 @@ class C09(Prop):
                            st.sampled_from([255, 256, 1000, 1001, 1024, 2048, 4096])),
             'fail_every': st.sampled_from([0, 0, 3, 7]),
             'second_wave': st.booleans(),
+            # another handler in the process (a second agent object, a test fixture) with unfinished work of its own
+            'neighbour': st.sampled_from([0, 0, 1, 3]),
+            'neighbour_late': st.booleans(),
         })
         return st.one_of(sim, sim, sim, sim, sim, sim, real, burst)
 
@@ -131,6 +160,7 @@ class C09(Prop):
             return _real_convert(snapshot)
         deep.push.convert_snapshot = convert
         th = TaskHandler()
+        th._lock = YieldingLock()
         if pool is not None:
             th._pool.shutdown(wait=False)
             th._pool = pool
@@ -172,6 +202,32 @@ class C09(Prop):
                 if len(channel.calls) != n_calls or len(pool.tasks) != n_tasks + 1:
                     out.violate('push_snapshot did not hand the work to the background executor (sent inline?)',
                                 {'calls_during_push': len(channel.calls) - n_calls})
+                    return out
+            elif op[0] == 'overtaken':
+                # a second thread hands over its snapshot in the gap after the first one's lock release
+                out.cls('push_overtaken_by_another_push')
+                s1, s2 = mk_snapshot(), mk_snapshot()
+                outcomes[s1.id], outcomes[s2.id] = op[1], op[2]
+                n_tasks = len(pool.tasks)
+                errs = []
+
+                def other(s2=s2):
+                    try:
+                        ps.push_snapshot(s2)
+                    except BaseException as e:      # noqa
+                        errs.append(e)
+                th._lock.after_release.append(other)
+                try:
+                    ps.push_snapshot(s1)
+                except BaseException as e:      # noqa
+                    errs.append(e)
+                del th._lock.after_release[:]
+                if errs:
+                    out.violate('push_snapshot raised %s' % type(errs[0]).__name__)
+                    return out
+                pushed.extend([(s1.id, op[1]), (s2.id, op[2])])
+                if len(pool.tasks) != n_tasks + 2:
+                    out.violate('push_snapshot did not hand the work to the background executor (sent inline?)')
                     return out
             elif op[0] == 'submit':
                 n = len(generic)
@@ -260,6 +316,15 @@ class C09(Prop):
             out.cls('backlog_1000')
         out.nontrivial = n >= 10
         ids = []
+        th2, pool2, ran2 = None, None, []
+        if recipe.get('neighbour'):
+            out.cls('second_handler_with_unfinished_work')
+            pool2 = sched.SimPool()
+            th2 = TaskHandler()
+            th2._pool.shutdown(wait=False)
+            th2._pool = pool2
+            for j in range(recipe['neighbour']):
+                th2.submit_task(ran2.append, j)
         for i in range(n):
             s = mk_snapshot()
             o = 'send_fail' if recipe['fail_every'] and i % recipe['fail_every'] == 0 else 'ok'
@@ -296,6 +361,56 @@ class C09(Prop):
                     return out
                 del s2
             pool.drain()
+        if th2 is not None:
+            # everything this handler accepted is done: its flush has nothing to wait for, whatever the other one holds
+            res = {}
+
+            def flusher():
+                try:
+                    th.flush()
+                except BaseException as e:      # noqa
+                    res['exc'] = e
+            t = threading.Thread(target=flusher, name='burst-flusher')
+            t.start()
+            t.join(4)
+            waited = t.is_alive()
+            if waited:
+                pool2.drain()
+            t.join(15)
+            if t.is_alive():
+                raise HarnessError('flush did not return (inconclusive)')
+            if waited:
+                out.violate('flush waits for the unfinished tasks of another handler')
+            if 'exc' in res:
+                out.violate('flush raised %s' % type(res['exc']).__name__)
+            late = ['late'] if recipe.get('neighbour_late') else []
+            if late:
+                try:
+                    th2.submit_task(ran2.append, 'late')
+                except BaseException as e:      # noqa
+                    out.violate('the flush of one handler closed another handler', {'error': type(e).__name__})
+            # the second handler's own flush waits for what that handler accepted
+            res2 = {}
+
+            def flusher2():
+                try:
+                    th2.flush()
+                except BaseException as e:      # noqa
+                    res2['exc'] = e
+            t2 = threading.Thread(target=flusher2, name='burst-flusher-2')
+            t2.start()
+            t2.join(0.3)
+            if not t2.is_alive() and pool2.pending():
+                out.violate('flush returned while accepted tasks were still unfinished', {'handler': 'second',
+                                                                                          'left': len(pool2.pending())})
+            pool2.drain()
+            t2.join(15)
+            if t2.is_alive():
+                raise HarnessError('flush did not return (inconclusive)')
+            if 'exc' in res2:
+                out.violate('flush raised %s' % type(res2['exc']).__name__, {'handler': 'second'})
+            if sorted(map(str, ran2)) != sorted(map(str, list(range(recipe['neighbour'])) + late)):
+                out.violate('tasks of the second handler did not run exactly once', {'ran': [str(x) for x in ran2]})
         try:
             th.flush()
         except BaseException as e:      # noqa
